@@ -268,7 +268,7 @@ def register(reg, repo):
 
     reg.add(C(S + "_continue_with_task", modifies="*", types={"task": "AsyncTask"},
               requires=["not computed(task)", "not blocked(task)", "task.running == False"],
-              post=["implies(self._tasks is old(self._tasks), self.active_task is old(self.active_task))",
+              post=["self.active_task is old(self.active_task)",
                     "implies(self._tasks is old(self._tasks), self._batches is old(self._batches))",
                     "computed(task) or task._dependencies_scheduled == False",
                     "callcount('async_task.AsyncTask._continue') == 1 or (computed(task) and callcount('async_task.AsyncTask._continue') == 0)",
